@@ -28,3 +28,8 @@ func (e *Explore) VerifProbeOnce(hash uint64) error {
 	}
 	return e.exploreOnce(context.Background(), t)
 }
+
+// VerifSetQueueCap replaces the work queue by one of the given capacity; call before Run (overlay only).
+func (e *Explore) VerifSetQueueCap(n int) {
+	e.needExplore = make(chan *exploringTarget, n)
+}
